@@ -246,7 +246,7 @@ Ltac ops_norm :=
 Ltac unit_tac c :=
   destruct c as [[] ?]; intros; split_ops; repeat match goal with x : unit_ |- _ => destruct x end;
   unfold run_val, run_self, run_unit, run_try, run_with; cbn;
-  repeat (progress unfold uadd, usub, assert_ok, assert_not_ok, eq_assume_true, eq_assume_false, umul, udiv, unew, ueqb, unit_of_pd, bind; cbn [chk mm sec]);
+  repeat (progress unfold uadd, usub, assert_ok, assert_not_ok, eq_assume_true, eq_assume_false, umul, udiv, unew, ueqb, unit_of_pd, pd_of_unit, bind; cbn [chk mm sec]);
   cbn;
   repeat (match goal with |- context [Z.eqb ?a ?b] => destruct (Z.eqb a b) end; cbn); try reflexivity.
 Ltac ops_tac :=
